@@ -25,6 +25,7 @@
 #include <opm/input/eclipse/EclipseState/Grid/FieldProps.hpp>
 #include <opm/input/eclipse/EclipseState/Grid/FieldData.hpp>
 #include <opm/input/eclipse/EclipseState/Grid/Box.hpp>
+#include <opm/input/eclipse/EclipseState/Grid/BoxManager.hpp>
 #include <opm/input/eclipse/EclipseState/Grid/GridDims.hpp>
 #include <opm/input/eclipse/Units/UnitSystem.hpp>
 #include <opm/input/eclipse/Units/Dimension.hpp>
@@ -1239,6 +1240,52 @@ int main(int argc, char** argv) {
             o << "fieldprops.idx " << nx << " " << ny << " " << nz << " ";
             for (int a : act) o << (a ? '1' : '0');
             for (int q = 0; q < 6; ++q) o << " " << bx[q];
+            sink.emit(o.str(), ans);
+        }
+        // BoxManager: random call histories on the real class, the active box's index list after every call
+        const int nmgr = ncases(tier, 80, 1000);
+        for (int j = 0; j < nmgr; ++j) {
+            const int nx = rng.range(1, 5), ny = rng.range(1, 5), nz = rng.range(1, 4);
+            const int n = nx * ny * nz;
+            std::vector<int> act(n), rank(n, 0);
+            const int dens = rng.pick(std::vector<int>{ 100, 70, 40 });
+            for (auto& a : act) a = (int) rng.below(100) < dens;
+            { int r = 0; for (int g = 0; g < n; ++g) { rank[g] = r; r += act[g]; } }
+            BoxManager mgr(GridDims(nx, ny, nz),
+                           [&act](const std::size_t g) { return act[g] != 0; },
+                           [&rank](const std::size_t g) { return static_cast<std::size_t>(rank[g]); });
+            std::ostringstream o;
+            o << "fieldprops.mgr " << nx << " " << ny << " " << nz << " ";
+            for (int a : act) o << (a ? '1' : '0');
+            std::string ans;
+            const int dims[3] = { nx, ny, nz };
+            const int ncalls = rng.range(1, 10);
+            for (int q = 0; q < ncalls; ++q) {
+                const int kind = rng.range(0, 6);
+                int bx[6] = { 0, 0, 0, 0, 0, 0 };
+                for (int a = 0; a < 3; ++a) {
+                    int lo = rng.range(0, dims[a] - 1), hi = rng.range(0, dims[a] - 1);
+                    if (lo > hi && !rng.coin(1, 15)) std::swap(lo, hi);
+                    if (rng.coin(1, 30)) hi = dims[a];
+                    bx[2 * a] = lo; bx[2 * a + 1] = hi;
+                }
+                std::string step;
+                try {
+                    if (kind <= 1) { o << " I"; for (int v : bx) o << " " << v; mgr.setInputBox(bx[0], bx[1], bx[2], bx[3], bx[4], bx[5]); }
+                    else if (kind <= 3) { o << " K"; for (int v : bx) o << " " << v; mgr.setKeywordBox(bx[0], bx[1], bx[2], bx[3], bx[4], bx[5]); }
+                    else if (kind == 4) { o << " EI"; mgr.endInputBox(); }
+                    else if (kind == 5) { o << " EK"; mgr.endKeyword(); }
+                    else { o << " ES"; mgr.endSection(); }
+                    for (const auto& ci : mgr.index_list()) {
+                        if (!step.empty()) step += ",";
+                        step += std::to_string(ci.global_index) + ":" + std::to_string(ci.active_index) + ":" + std::to_string(ci.data_index);
+                    }
+                    if (step.empty()) step = "-";
+                    sink.count("mgr.call.ok");
+                } catch (const std::exception&) { step = "err"; sink.count("mgr.call.err"); }
+                if (!ans.empty()) ans += ";";
+                ans += step;
+            }
             sink.emit(o.str(), ans);
         }
         sink.writeStats(outdir + "/stats.json");
